@@ -14,6 +14,9 @@ def main():
     if pid in ("C01", "C02", "C03", "C04", "C13"):
         from . import ode_checks
         return ode_checks.run(pid, rest)
+    if pid in ("C14", "C15"):
+        from . import net_checks
+        return {"C14": net_checks.run_c14, "C15": net_checks.run_c15}[pid](rest)
     if pid == "C19":
         from . import c19
         return c19.run(rest)
